@@ -82,6 +82,7 @@ def check_history_discipline(ck, P, rid):
     allowed = {"ScheduleNewEvent": "tagged pushes of sent messages", "process_lp_init": "init + LP_INIT entry", "process_msg": "untagged push of the processed event",
                "send_anti_messages": "truncation on rollback", "fossil_lp_collect": "truncation of the committed prefix", "process_lp_fini": "release"}
     writers = set()
+    owners = Q.owner_closure(P, allowed)
     for f, node, kind in Q.field_accesses(P, "process_ctx", "p_msgs"):
         # p_msgs is a struct; look at how its members are used
         p = node.parent
@@ -91,14 +92,19 @@ def check_history_discipline(ck, P, rid):
             continue
         k2 = Q.access_kind(p)
         if k2 in ("write", "rmw-plain") or (p.name == "items" and _items_store(p)):
-            writers.add(f.name)
-            if f.name not in allowed:
+            if f.name in owners:
+                writers.add(owners[f.name])
+            else:
+                writers.add(f.name)
                 ck.violated(rid, "history-writer:%s" % f.name, node.where, "%s modifies the LP history (p_msgs.%s)" % (f.name, p.name), cfg)
     for w in sorted(writers & set(allowed)):
         ck.holds(rid, "history-writer:%s" % w, P.fn(w).where, allowed[w], cfg)
     ck.expect(rid, len(writers), 5, "functions writing the history")
-    # untagged push after dispatch
-    f = P.fn("process_msg")
+    # untagged push after dispatch: located by role (the function that dispatches forward with common_msg_process and
+    # appends to the history; process_lp_init does the same for LP_INIT and is checked by the same rule)
+    cands = [g for g in P.all_functions() if g.file.endswith("lp/process.c") and g.name != "process_lp_init" and list(g.calls("common_msg_process")) and
+             any(s.k == "StmtExpr" and s.macros and s.macros[0] == "array_push" and "p_msgs" in (s.d.get("mcall") or "") for s in g.walk())]
+    f = cands[0] if len(cands) == 1 else P.fn("process_msg")
     disp = list(f.calls("common_msg_process"))
     pushes = [s for s in f.walk() if s.k == "StmtExpr" and s.macros and s.macros[0] == "array_push" and "p_msgs" in (s.d.get("mcall") or "")]
     inst = "push-after-dispatch@process_msg"
@@ -546,14 +552,14 @@ def check_checkpoint_position(ck, P, rid):
         else:
             ck.violated(rid, inst, cs[0].where, "the checkpoint is labelled with %s instead of the current number of history entries: a restore coasts forward from the wrong event" % a, cfg)
     n = 0
-    for fname in ("process_msg", "process_lp_init"):
+    for fname in sorted({c.fn.name for c in P.callers("checkpoint_take")}):
         f = P.fn(fname)
         takes = list(f.calls("checkpoint_take"))
         pushes = [s for s in f.walk() if s.k == "StmtExpr" and s.macros and s.macros[0] == "array_push" and "p_msgs" in (s.d.get("mcall") or "")]
         disp = list(f.calls("common_msg_process"))
         for t in takes:
             n += 1
-            inst = "after-push@%s" % fname
+            inst = "after-push@%s" % ("process_msg" if fname not in ("process_msg", "process_lp_init") and Q.owner_closure(P, ["process_msg"]).get(fname) else fname)
             stores = [x for pu in pushes for x in pu.walk() if x.k == "UnaryOperator" and x.op == "++" and "count" in X.show(x.children[0])]
             if stores and all(f.cfg.dominates(s, t) for s in stores) and disp and f.cfg.dominates(disp[0], t):
                 ck.holds(rid, inst, t.where, "the event is dispatched and appended to the history before the checkpoint is taken", cfg)
